@@ -376,3 +376,27 @@ def coq_eval(tag, imports, fn, rendered, per_file=400, sep=';'):
             raise RuntimeError('coq evaluation of %s: %d results for %d cases' % (fn, len(items), len(part)))
         out.extend(items)
     return out
+
+
+def fix_axioms(ctx):
+    """`Print Assumptions` prints long axioms over several lines (the name alone on the first);
+    re-read the compiler output so that the evidence lists every axiom of every theorem."""
+    import re
+    proof = ctx.proof or {}
+    log = proof.get('log')
+    if not log or not proof.get('theorems'):
+        return
+    chunks = re.split(r'(?m)^(?=Closed under the global context|Axioms:)', log)
+    blocks = []
+    for ch in chunks:
+        if ch.startswith('Closed under the global context'):
+            blocks.append([])
+        elif ch.startswith('Axioms:'):
+            names = []
+            for line in ch.splitlines()[1:]:
+                if line and not line[0].isspace():
+                    names.append(line.split(':')[0].split()[0])
+            blocks.append(names)
+    if len(blocks) == len(proof['theorems']):
+        for t, b in zip(proof['theorems'], blocks):
+            t['axioms'] = b
